@@ -174,6 +174,17 @@ class _PopenState:
     polls_at_last_spawn = 0
 
 
+def reset_run_state():
+    """Called by the in-process harness before every run."""
+    st = _PopenState
+    with st.lock:
+        st.alive = 0
+        st.max_alive = 0
+        st.spawned = 0
+        st.polls = 0
+        st.polls_at_last_spawn = 0
+
+
 class _ModuleProxy:
     """Attribute proxy for a module with some names overridden."""
 
